@@ -167,6 +167,10 @@ package req
 //@
 //@ func (*socket).RemovePipe
 //@   loop 2 ensures c.failNoPeers && len(s.pipes) == 0 ==> !c.queued && c.reqMsg == nil && c.reqID == 0
+//@
+//@ func (*socket).OpenContext
+//@   ensures !cl ==> cast("*context", result0).reqID == 0 && cast("*context", result0).repMsg == nil && cast("*context", result0).reqMsg == nil && cast("*context", result0).sendMsg == nil
+//@   ensures !cl ==> !cast("*context", result0).queued && !cast("*context", result0).receiveWait && cast("*context", result0).lastPipe == nil
 // ---- generated AddPipe contracts (tools/gen_addpipe_contracts.py) ----
 //@ func (*socket).AddPipe
 //@   ghost wasClosed = s.closed at call:Lock#1
@@ -176,7 +180,3 @@ package req
 //@   before call:SetPrivate#1 assert p.p == pp && p.s == s
 //@
 // ---- end generated AddPipe contracts ----
-//@
-//@ func (*socket).OpenContext
-//@   ensures !cl ==> cast("*context", result0).reqID == 0 && cast("*context", result0).repMsg == nil && cast("*context", result0).reqMsg == nil && cast("*context", result0).sendMsg == nil
-//@   ensures !cl ==> !cast("*context", result0).queued && !cast("*context", result0).receiveWait && cast("*context", result0).lastPipe == nil
